@@ -155,10 +155,9 @@ Variable sh : shape.
 Variable I : dimg.
 Let pl := pln_of sh I.
 
-(* action (b,q,j) may be invoked according to the crash image: not finished, no durable success *)
+(* action (b,q,j) may be invoked according to the crash image: not finished, no durable result (no attempt) *)
 Definition act_open (b q j : nat) : Prop :=
-  is_terminal (c_st (iget I (OAct (ASeq b q j)))) = false
-  /\ (0 <? c_n (iget I (OAct (ASeq b q j)))) && c_ok (iget I (OAct (ASeq b q j))) = false.
+  is_terminal (c_st (iget I (OAct (ASeq b q j)))) = false /\ c_n (iget I (OAct (ASeq b q j))) = 0.
 Definition seq_len (b q : nat) : nat := match seq_of sh b q with Some rs => length rs | None => 0 end.
 (* sequence (b,q) is not finished in the crash image and may run its actions from index i on *)
 Definition open_from (b q i : nat) : Prop :=
